@@ -126,7 +126,7 @@ func emulator(setup string) (*termdrive.T, string) {
 			return nil, pm
 		}
 	}
-	e.TakeOutput(false)
+	e.TakeSettled()
 	return e, ""
 }
 
@@ -139,19 +139,9 @@ func update(e *termdrive.T, ev vaxis.Event) (out []byte, panicMsg string) {
 		}()
 		e.M.Update(ev)
 	}()
-	// the pipe is written synchronously; give the reader goroutine a moment
-	for i := 0; i < 40; i++ {
-		time.Sleep(25 * time.Microsecond)
-		if o := e.TakeOutput(false); len(o) > 0 {
-			out = append(out, o...)
-			// drain what follows immediately
-			for j := 0; j < 4; j++ {
-				time.Sleep(25 * time.Microsecond)
-				out = append(out, e.TakeOutput(false)...)
-			}
-			return
-		}
-	}
+	// the pipe is written synchronously; a marker behind the output tells
+	// when the reader goroutine has delivered all of it
+	out = e.TakeSettled()
 	return
 }
 
